@@ -126,9 +126,14 @@ CopyAssignA(o) == Two /\ ICopyAssign(o)
 MoveConstructA(o) == Two /\ IMoveConstruct(o)
 MoveAssignA(o) == Two /\ IMoveAssign(o)
 DestroyA(o) == Two /\ IDestroy(o)
+\* self-assignment is guarded: nothing is touched, nothing is destroyed
+ILayoutKept == UNCHANGED <<pos, size, icap, slots>> /\ victims' = {}
+SelfCopyAssignA(o) == Mut(o) /\ SelfCopyAssign(o) /\ ILayoutKept
+SelfMoveAssignA(o) == Mut(o) /\ SelfMoveAssign(o) /\ ILayoutKept
 Next == \E o \in Objs : \/ PushBackA(o) \/ PushFrontA(o) \/ PopBackA(o) \/ PopFrontA(o)
                         \/ \E n \in 1..MaxCap : ResizeA(o, n)
                         \/ CopyConstructA(o) \/ CopyAssignA(o) \/ MoveConstructA(o) \/ MoveAssignA(o) \/ DestroyA(o)
+                        \/ SelfCopyAssignA(o) \/ SelfMoveAssignA(o)
 Spec == Init /\ [][Next]_vars
 
 (* ---- what TLC checks ---- *)
